@@ -8,8 +8,8 @@ CONSTANTS
  RouterPeriod = 3
  RouteTTL = 4
  Peers = {1, 2}
- MaxTime = 7
- MaxAtt = 3
+ MaxTime = 5
+ MaxAtt = 2
  RelayKnown = TRUE
  Exps <- E35
  Defect = "none"
